@@ -28,6 +28,16 @@
 	    BT_LEAD(m, n, 12) && BT_LEAD(m, n, 13) && BT_LEAD(m, n, 14) &&     \
 	    ((n) == 15 || !BT_NONEND(m, n)))
 
+/* the same definition as separate precondition clauses (one conjunct each) */
+#define BT_COUNT_REQ(m, n) \
+	__CPROVER_requires((n) <= 15) \
+	__CPROVER_requires(BT_LEAD(m, n, 0)) __CPROVER_requires(BT_LEAD(m, n, 1)) __CPROVER_requires(BT_LEAD(m, n, 2)) \
+	__CPROVER_requires(BT_LEAD(m, n, 3)) __CPROVER_requires(BT_LEAD(m, n, 4)) __CPROVER_requires(BT_LEAD(m, n, 5)) \
+	__CPROVER_requires(BT_LEAD(m, n, 6)) __CPROVER_requires(BT_LEAD(m, n, 7)) __CPROVER_requires(BT_LEAD(m, n, 8)) \
+	__CPROVER_requires(BT_LEAD(m, n, 9)) __CPROVER_requires(BT_LEAD(m, n, 10)) __CPROVER_requires(BT_LEAD(m, n, 11)) \
+	__CPROVER_requires(BT_LEAD(m, n, 12)) __CPROVER_requires(BT_LEAD(m, n, 13)) __CPROVER_requires(BT_LEAD(m, n, 14)) \
+	__CPROVER_requires((n) == 15 || !BT_NONEND(m, n))
+
 /* outcome classes in terms of n, the ttl and the PRE-state body length len:
  *  TOOFAR : the first ttl words are complete and none is the end word: the
  *           message crossed more than ttl hops            => dropped
@@ -44,8 +54,22 @@
 	(__CPROVER_is_fresh((m), sizeof(struct nng_msg)) &&                    \
 	    (m)->m_header_len == 0 && (m)->m_refcnt.v == 1 &&                  \
 	    CH_FULL_PRE(&(m)->m_body))
-/* ghost equation: g_hb is the body byte that ends up at header index g_hk when
- * the words start at header offset `off` */
-#define BT_HDR_GHOST_PRE(m, off)                                           \
-	((g_hk >= (off) && g_hk - (off) < (m)->m_body.ch_len) ==> (g_hb == (m)->m_body.ch_ptr[g_hk - (off)]))
+/* ---- woven loop invariant of the backtrace loop (recipe shared with modules/xrep) ----
+ * ghost equations binding the pre-state geometry of the body (loop_entry() of a
+ * field behind a pointer is rejected by CBMC, so the pre-state is named by ghosts) */
+#define BT_BODY_GHOSTS(m)                                                  \
+	(g_len0 == (m)->m_body.ch_len && g_off0 == CH_OFF(&(m)->m_body) &&     \
+	    g_cap0 == (m)->m_body.ch_cap && g_p == (void *) (m)->m_body.ch_buf)
+#define BT_HB(b) (((b) & 0x80u) != 0)
+/* i = number of words moved so far, h0 = header bytes present before the first
+ * moved word; (g_k, g_b) = pre-state body byte (CH_GHOST_PRE) */
+#define BT_LOOP_INV(msg, i, h0)                                            \
+	((msg)->m_header_len == (h0) + 4 * (size_t) (i) && (msg)->m_refcnt.v == 1 && \
+	    (msg)->m_body.ch_cap == g_cap0 && (msg)->m_body.ch_buf == (uint8_t *) g_p && \
+	    4 * (size_t) (i) <= g_len0 && (msg)->m_body.ch_len == g_len0 - 4 * (size_t) (i) && \
+	    __CPROVER_same_object((msg)->m_body.ch_buf, (msg)->m_body.ch_ptr) && CH_FULL_SCALAR(&(msg)->m_body) && \
+	    (((msg)->m_body.ch_len != 0) ==> CH_OFF(&(msg)->m_body) == g_off0 + 4 * (size_t) (i)) && \
+	    ((g_k < 4 * (size_t) (i)) ==> HDR(msg)[(h0) + g_k] == g_b) &&     \
+	    ((g_k >= 4 * (size_t) (i) && g_k < g_len0) ==> (msg)->m_body.ch_ptr[g_k - 4 * (size_t) (i)] == g_b) && \
+	    (size_t) (i) <= g_n)
 #endif
